@@ -402,6 +402,10 @@ func (c *RemoteClient) DumpDatabase(dbOID uint32) *DatabaseDump {
 	}
 	dump := &DatabaseDump{OID: dbOID, Name: db.Name}
 	for _, t := range c.Tables(dbOID) {
+		// ordinary tables only (like DumpDatabaseFromFiles): no indexes, sequences, views, TOAST tables
+		if t.Kind != "r" && t.Kind != "" {
+			continue
+		}
 		if strings.HasPrefix(t.Name, "pg_") || strings.HasPrefix(t.Name, "sql_") {
 			continue
 		}
